@@ -1,6 +1,7 @@
 # Unit `cryptkdf` (C06): the key-derivation / password-check bodies of pdf/src/crypt.rs. See NOTES.md.
 F = 'pdf/src/crypt.rs'
 O = 'pdf/src/object/mod.rs'
+FILE = 'pdf/src/file.rs'
 IMPL = r'^impl Decoder$'
 NESTED = [IMPL, r'fn from_password\(']          # the nested fn items live inside the body of Decoder::from_password
 
@@ -79,24 +80,25 @@ UNIT = {
      # call sites (from_password): password = SASLprep output truncated to 127 bytes; u = b"" or the 48-byte /U (length checked)
      'requires': ['password@.len() <= 128', 'u@.len() <= 48'],
      'ensures': [('alg2b', 'r@ == alg2b_hash(password@, salt@, u@)')],
-     'attrs': ['#[verifier::loop_isolation(false)]'],
      'loops': {
         1: {'invariant': [
+                'password@.len() <= 128', 'u@.len() <= 48',
                 '32 <= block_size <= 64', 'i <= 288', 'i >= 1 ==> 1 <= data_total_len <= 15360',
-                'key.view() == block@.subrange(0, 16)', 'iv.view() == block@.subrange(16, 32)',
+                ('aes_key_first_16_iv_second_16_bytes_of_k', 'key.view() == block@.subrange(0, 16) && iv.view() == block@.subrange(16, 32)'),
                 'sha256.fed() == Seq::<u8>::empty()', 'sha384.fed() == Seq::<u8>::empty()', 'sha512.fed() == Seq::<u8>::empty()',
                 ('alg2b_rounds_and_stop_condition',
                  'alg2b_from(password@, u@, block@.subrange(0, block_size as int), (if i == 0 { 0u8 } else { data@[data_total_len - 1] }), i as int) '
                  '== alg2b_from(password@, u@, sha256_spec(password@ + salt@ + u@), 0u8, 0)')],
             'decreases': '288 - i'},
         2: {'invariant': [
+                'password@.len() <= 128', 'u@.len() <= 48', '32 <= block_size <= 64',
                 'data_repeat_len == password@.len() + block_size + u@.len()', '(j as int) * (data_repeat_len as int) <= 15360',
                 ('k1_64_repetitions', 'data@.subrange(0, j * data_repeat_len) == repeat(password@ + block@.subrange(0, block_size as int) + u@, j as int)'),
                 'data@.subrange(0, data_repeat_len as int) == password@ + block@.subrange(0, block_size as int) + u@']},
      },
      'rewrites': [
         # R1 ghost: lemma calls without `requires` (implications over pointwise hypotheses) and ghost snapshots
-        {'rule': 'R1', 'regex': r'(for j in 1\.\.64 \{)',
+        {'rule': 'R1', 'regex': r'(for j in 1\.\.\d+ \{)',
          'replace': r'proof { let k_ = block@.subrange(0, block_size as int); lemma_unit_layout(data@, password@, k_, u@); lemma_repeat_one(password@ + k_ + u@); '
                     r'lemma_mul_bound(1, data_repeat_len as int); } \1'},
         {'rule': 'R1', 'regex': r'(data\.copy_within\([^;]*;)',
@@ -141,11 +143,12 @@ UNIT = {
         ('revision_rejects', '!(2 <= dict.r <= 6) ==> r is Err'),
         ('key_size_selection', 'post_key_size_selection(*dict, r)'),
         ('decoder_wf', 'r matches Ok(d) ==> d.wf()'),
+        ('decoder_fresh', 'r matches Ok(d) ==> fresh_decoder(d, *dict)'),
         ('rc4_login', 'post_rc4_login(*dict, id@, pass@, r)'),
         ('aes_login', 'post_aes_login(*dict, pass@, r)'),
      ],
      'loops': {1: {'for_ghost': 'it',
-                   'invariant': ['data@ == rounds_up(password_wrap_key@, dict.o.view(), it.index@ as int)',
+                   'invariant': [('alg7_rc4_rounds_and_counter', 'data@ == rounds_up(password_wrap_key@, dict.o.view(), it.index@ as int)'),
                                  'password_wrap_key@.len() == key_size', '1 <= key_size <= 16', 'rounds <= 20']}},
      'rewrites': [
         # R2: the seven nested fn items are lifted out of the body (they are abstract callees, see the template)
@@ -196,5 +199,37 @@ UNIT = {
      'rewrites': [{'rule': 'R1', 'find': 'Decoder::from_password(', 'replace': 'proof { lemma_empty_literal(); } Decoder::from_password('},
                   {'rule': 'R7', 'regex': r'b("[^"]*")', 'replace': r'hoist_bstr(\1)', 'count': 1}]},
 
+
+  # ---------------- installation of the decoder (pdf/src/file.rs) ----------------
+  'enum Primitive': {'kind': 'decl', 'file': 'pdf/src/primitive.rs', 'header': r'^pub enum Primitive$'},
+  'struct Storage': {'kind': 'decl', 'file': FILE, 'header': r'^pub struct Storage<B, OC, SC, L>$',
+     'rewrites': [{'rule': 'R2', 'regex': r'\n    (\w+):(\s)', 'replace': r'\n    pub \1:\2', 'count': '*'}]},
+  'Storage::load_storage_and_trailer_password': {'kind': 'fn', 'file': FILE, 'container': r'^impl<B, OC, SC, L> Storage<B, OC, SC, L> where',
+     'name': 'load_storage_and_trailer_password', 'props': ['C06'],
+     'ensures': [
+        ('trailer_and_refs_from_backend', 'r matches Ok(tr) ==> (old(self).backend.xref_and_trailer(old(self).start_offset, old(self).store()) matches Ok(rt) '
+                                          '&& rt.1 == tr && final(self).refs == rt.0)'),
+        ('no_encrypt_no_change_of_decoder', 'r matches Ok(tr) ==> (!tr@.dom().contains("Encrypt"@) ==> final(self).decoder == old(self).decoder)'),
+        ('decoder_from_trailer_encrypt_and_first_id', 'r matches Ok(tr) ==> (tr@.dom().contains("Encrypt"@) ==> ('
+            ''
+            'first_id(tr) matches Some(id) && cryptdict_reads(tr@["Encrypt"@], with_refs(*old(self), final(self).refs).store()) matches Ok(dict) '
+            '&& final(self).decoder matches Some(d) && d.wf() '
+            '&& post_key_size_selection(dict, Ok::<Decoder, PdfError>(unexempt(d))) '
+            '&& post_rc4_login(dict, id, password@, Ok::<Decoder, PdfError>(unexempt(d))) '
+            '&& post_aes_login(dict, password@, Ok::<Decoder, PdfError>(unexempt(d)))))'),
+        ('encrypt_dictionary_exempt', 'r matches Ok(tr) ==> (tr@.dom().contains("Encrypt"@) ==> '
+            '(final(self).decoder matches Some(d) && d.encrypt_indirect_object == entry_ref(tr, "Encrypt"@)))'),
+        ('metadata_object_exempt', 'r matches Ok(tr) ==> (tr@.dom().contains("Encrypt"@) ==> ('
+            'final(self).decoder matches Some(d) && '
+            'match entry_ref(tr, "Root"@) { '
+            '  None => d.metadata_indirect_object is None, '
+            '  Some(c) => catalog_of(with_decoder(with_refs(*old(self), final(self).refs), before_metadata(d)).store(), c) matches Some(cat) '
+            '             && d.metadata_indirect_object == entry_ref(cat, "Metadata"@) }))'),
+        ('frame', 'final(self).backend == old(self).backend && final(self).start_offset == old(self).start_offset'),
+     ],
+     'rewrites': [
+        {'rule': 'R3', 'regex': r'field: "[^"]*"\.into\(\),?', 'replace': '', 'count': 2},
+        {'rule': 'R7', 'regex': r'let key = (trailer\s*\.get\("ID"\).*?\.as_array\(\)\?)\s*\.get\(0\)', 'replace': r'let key = hoist_first(\1)', 'count': 1},
+     ]},
  },
 }
